@@ -2,6 +2,7 @@ package rules
 
 import (
 	"go/token"
+	"go/types"
 	"strings"
 
 	"gunyucheck/core"
@@ -188,4 +189,164 @@ func ruleRebuiltListStorage(w *core.World, r *core.Report) {
 		}
 	}
 	r.OK(construct, stores[0].Pos(), "")
+}
+
+// ---------------------------------------------------------------- R18.15 the replay's result is the first published error
+
+// ruleReplayResultIsPublishedError: a unit the parser refuses stops the replay
+// *with an error*. The parser publishes its refusal on the wait-closer before it
+// closes the unit channel (R18.12); a sender that finds the channel closed ends
+// with nil — for it the stream simply ended. What sendAofBisync hands back must
+// therefore be the wait-closer's error (the first one published), read after
+// the sender has returned, and not the sender's own result: in mode `sync` the
+// sender's select may take the closed channel although Done() is ready too, and
+// the refusal would end the replay as a clean stop (seed C18-14; W27 was the
+// same loss on the parser's side).
+func ruleReplayResultIsPublishedError(w *core.World, r *core.Report) {
+	const construct = "sendAofBisync/result-is-first-published-error"
+	f := fn(w, r, "(*syncer.RedisOutput).sendAofBisync")
+	if f == nil {
+		return
+	}
+	isWaitCloser := func(v ssa.Value) bool { return strings.HasSuffix(core.TypeName(v.Type()), "sync.WaitCloser") }
+	isUnitChan := func(v ssa.Value) bool {
+		ch, ok := v.Type().Underlying().(*types.Chan)
+		return ok && strings.HasSuffix(core.TypeName(ch.Elem()), "bisyncReplayUnit")
+	}
+	// the wait-closer the parser publishes its refusal on
+	var quitCell *ssa.Alloc
+	var quitVal ssa.Value
+	var parserCall ssa.Instruction
+	for _, g := range core.DeepFuncs(f) {
+		for _, s := range core.SitesNamed(g, false, "(*syncer.RedisOutput).parseAofReplayUnits") {
+			parserCall = s.Instr
+			for _, a := range s.Args() {
+				if !isWaitCloser(a) {
+					continue
+				}
+				quitVal = core.Unwrap(a)
+				if ld, ok := quitVal.(*ssa.UnOp); ok && ld.Op == token.MUL {
+					quitCell = core.Cell(ld.X)
+				}
+			}
+		}
+	}
+	if parserCall == nil || quitVal == nil {
+		r.Undecided(construct, f.Pos(), "the call of parseAofReplayUnits with the wait-closer it publishes a refusal on was not found in sendAofBisync or its closures")
+		return
+	}
+	isQuit := func(v ssa.Value) bool {
+		v = core.Unwrap(v)
+		if v == quitVal {
+			return true
+		}
+		ld, ok := v.(*ssa.UnOp)
+		return ok && ld.Op == token.MUL && quitCell != nil && core.Cell(ld.X) == quitCell
+	}
+	isQuitError := func(v ssa.Value) bool {
+		c, ok := v.(*ssa.Call)
+		return ok && c.Call.IsInvoke() && c.Call.Method.Name() == "Error" && len(c.Call.Args) == 0 && isQuit(c.Call.Value)
+	}
+	// the senders: the calls that are handed the unit channel (other than the parser). What a sender hands back when
+	// it ends: "nil" (the stream ended: it found the channel closed), or only errors it saw / the wait-closer's own
+	// error ("published": such a sender reports the refusal itself), or something the rule cannot classify.
+	const (
+		endsNil = iota
+		endsPublished
+		endsUnclear
+	)
+	senders := map[ssa.Instruction]int{}
+	senderName := map[ssa.Instruction]string{}
+	for _, s := range core.Sites(f, false) {
+		if s.Instr.Parent() != f || s.Instr == parserCall || s.Callee == nil {
+			continue
+		}
+		takesUnits := false
+		for _, a := range s.Args() {
+			if isUnitChan(a) {
+				takesUnits = true
+			}
+		}
+		if !takesUnits {
+			continue
+		}
+		kind := endsPublished
+		for _, ret := range core.ReturnsX(s.Callee) {
+			// (a function that defers something keeps its result in a cell: read through the spill)
+			for _, v := range core.RetVals(ret, len(ret.Results)-1) {
+				v := v
+				switch {
+				case core.IsNilConst(v):
+					kind = endsNil
+				case kind == endsNil:
+				case isResultOf("fmt.Errorf", -1)(v), isResultOf("errors.New", -1)(v):
+				case core.NilFact(ret.Block(), func(x ssa.Value) bool { return x == v }, false):
+				default:
+					if c, ok := v.(*ssa.Call); ok && c.Call.IsInvoke() && c.Call.Method.Name() == "Error" && isWaitCloser(c.Call.Value) {
+						continue
+					}
+					kind = endsUnclear
+				}
+			}
+		}
+		senders[s.Instr] = kind
+		senderName[s.Instr] = shortName(s.Name)
+	}
+	if len(senders) == 0 {
+		r.Fail(construct, f.Pos(), "no call that hands the unit channel to a sender was found in sendAofBisync")
+		return
+	}
+	bad, unclear := "", ""
+	var pos token.Pos = f.Pos()
+	paths := 0
+	okEnum := core.EnumPathsN(f.Blocks[0], 0, 100000, 1, func(p *core.Path) {
+		ret, isRet := p.End.(*ssa.Return)
+		if !isRet || ret.Parent() != f || len(ret.Results) != 1 || bad != "" {
+			return
+		}
+		sent := -1
+		for i, in := range p.Instrs {
+			if _, is := senders[in]; is {
+				sent = i
+			}
+		}
+		if sent < 0 {
+			return // ended before a sender ran
+		}
+		paths++
+		rv := p.Resolve(ret.Results[0])
+		for i, in := range p.Instrs {
+			if i <= sent {
+				continue
+			}
+			c, ok := in.(*ssa.Call)
+			if !ok || !isQuitError(c) {
+				continue
+			}
+			if core.Unwrap(rv) == ssa.Value(c) || pathNil(p, c) {
+				// the result is the published error, or nothing was published and anything the sender gave may be returned
+				return
+			}
+		}
+		switch senders[p.Instrs[sent]] {
+		case endsPublished:
+			// this sender ends with the wait-closer's error (or an error of its own) and never with a plain nil
+			return
+		case endsUnclear:
+			if unclear == "" {
+				unclear = senderName[p.Instrs[sent]]
+			}
+			return
+		}
+		bad, pos = "after the sender ("+senderName[p.Instrs[sent]]+") returned, sendAofBisync hands back something other than the error published on the wait-closer the parser reports to (replayQuit.Error(), read after the sender's return): a sender that found the unit channel closed returns nil, so a unit the parser refused (keys in several slots, keys not determinable) ends the replay as a clean stop instead of an error — the refusal is lost whenever the sender's select takes the closed channel before Done()", ret.Pos()
+	})
+	if !okEnum {
+		r.Undecided(construct, f.Pos(), "too many paths")
+		return
+	}
+	if bad == "" && unclear != "" {
+		r.Undecided(construct, f.Pos(), "sendAofBisync hands back the result of %s itself, and the rule cannot tell what that sender returns when it finds the unit channel closed (accepted: the wait-closer's Error(), a constructed error, an error tested non-nil; a nil constant means the parser's refusal would be lost)", unclear)
+		return
+	}
+	r.Check(bad == "" && paths > 0, construct, pos, "%s", bad)
 }
